@@ -374,11 +374,60 @@ def r11d(ctx):
                'options are not applied to every leaf layer', where(fn))
 
 
+def r11e(ctx):
+    """The sampler installed by update_softmax_options is the one its stored options name:
+    disable_sampling -> no sampling (whatever gumbel says), else gumbel -> Gumbel sampler, else
+    softmax sampler.  Decided per path from the flag conditions under which each sampler is
+    stored (all four flag worlds enumerated)."""
+    repo = ctx.repo
+    base = repo.cls('MPSBaseQtz')
+    fn = base.methods['update_softmax_options']
+    flags = {}
+    for name in ('disable_sampling', 'gumbel_softmax'):
+        flags[name] = ('attr', SELF, name)
+    table = {}
+    for p in returning(paths(repo, fn)):
+        last = None
+        for e in p.events:
+            if e.kind == 'setattr' and e.data[0] == SELF and e.data[1] == 'sample_alpha':
+                last = e
+        if last is None:
+            continue
+        v = last.data[2]
+        sampler = v[2] if v[0] == 'attr' and v[1] == SELF else short(v, 40)
+        g = {a: pol for a, pol in guards_of(p, last)}
+        for d in (True, False):
+            for gm in (True, False):
+                ok = True
+                for a, pol in g.items():
+                    if a == flags['disable_sampling'] and pol != d:
+                        ok = False
+                    if a == flags['gumbel_softmax'] and pol != gm:
+                        ok = False
+                if ok and all(a in flags.values() for a in g):
+                    table.setdefault((d, gm), set()).add(sampler)
+    if len(table) != 4:
+        # the derivation is not a pure function of the two stored flags (R11c judges that)
+        ctx.ob('R11e', 'MPSBaseQtz sampler derivation table', True,
+               'sampler not derived from stored flags (judged by R11c)', where(fn),
+               nontrivial=False)
+        return
+    for (d, gm), got in sorted(table.items()):
+        want = 'sample_alpha_none' if d else ('sample_alpha_gs' if gm else 'sample_alpha_sm')
+        ok = got == {want}
+        ctx.ob('R11e', f'MPSBaseQtz sampler when disable_sampling={d}, gumbel={gm}', ok,
+               f'{want}' if ok else
+               f'with disable_sampling={d} and gumbel={gm} stored, the installed sampler is '
+               f'{sorted(got)} instead of {want}: setting one option silently overrides the '
+               f'other although its stored value is unchanged', where(fn))
+
+
 def run(ctx):
     r11a(ctx)
     r11b(ctx)
     r11c(ctx)
     r11d(ctx)
+    r11e(ctx)
     ctx.assume('torch: a set of tensors compares by identity (Tensor.__hash__ is id-based); '
                'buffers are never returned by named_parameters()')
     ctx.assume('each control is a single call whose effect is a function of its arguments only '
